@@ -341,6 +341,20 @@ def error_test_edges(fn, region):
             if flip:
                 true_t, false_t = false_t, true_t
             out.append((u, true_t, frozenset(idents)))
+        elif ty == "isize":
+            # `match e.kind() { ErrorKind::NotFound => .., _ => .. }`: a discriminant switch on an ErrorKind value
+            l = op_local(t["op"])
+            for s_ in fn.blocks[u]["stmts"]:
+                rv_ = s_["rv"]
+                if rv_["k"] == "discr" and s_["lhs"]["l"] == l and (rv_.get("adt") or "").endswith("::ErrorKind") \
+                        and rv_.get("variants"):
+                    names = {int(v_["val"]): v_["name"] for v_ in rv_["variants"]}
+                    bytarget = {}
+                    for val, tb in t["targets"]:
+                        if tb != t["otherwise"] and int(val) in names:
+                            bytarget.setdefault(tb, set()).add(names[int(val)])
+                    for tb, vals in bytarget.items():
+                        out.append((u, tb, frozenset(vals)))
         elif ty not in ("isize", None) and not ty.startswith("core::") :
             bytarget = {}
             for val, tb in t["targets"]:
